@@ -5,6 +5,13 @@
 #ifndef OMAX
 #define OMAX 1024
 #endif
+/* head-room init_mms asks for (objects: two catalogue allocations; handles: the one it may add); overridable for the small-scope refutation pass */
+#ifndef OSLACK
+#define OSLACK 256
+#endif
+#ifndef KSLACK
+#define KSLACK 4
+#endif
 _Bool obj_alive[OMAX];           /* allocated and not yet deleted */
 int obj_class[OMAX];             /* catalogue class of each object */
 int ghost_next_obj;              /* next fresh identity */
@@ -84,7 +91,7 @@ int ghost_e;         /* arbitrary catalogue index (ghost constant): "some entry 
 _Bool ghost_nomatch; /* ghost hypothesis flag: when set, the caller asserts that no catalogue entry matches */
 #define REQ_reg__init_mms(my_name, masa_name) \
   (REG_WF && CLASSES_OK && KEY_OK(my_name) && KEY_OK(masa_name) && ghost_exit == 0 && ghost_norm == MASA_MAP(masa_name) && \
-   ghost_next_obj < OMAX - 256 && _master_map_size < KMAX - 4 && \
+   ghost_next_obj < OMAX - OSLACK && _master_map_size < KMAX - KSLACK && \
    (ghost_nomatch ==> (__CPROVER_forall { int e0; (0 <= e0 && e0 < NCAT) ==> !MATCHES(CAT[e0]) })))
 #define CONTRACT_reg__init_mms \
   __CPROVER_requires(REQ_reg__init_mms(my_name, masa_name)) \
